@@ -59,7 +59,7 @@ func c11Items(v rv) (cursor int, ids []string, ok bool) {
 }
 
 func checkC11(job *Job, res *Result) {
-	res.Rule = "SEQ over inputs: 7 small datasets (n = 0..6) + a 300-object and a 6x6-grid dataset x 5 commands x areas {world bounds, circle, triangle} x filters {none, MATCH a*, MATCH a?, WHERE f 1 2, WHEREIN f 2 1 2, MATCH+WHERE} x {ASC, DESC} x LIMIT 1..n+1 (large: 1, 7, 36, 100, 254..258, n, n+1) x {IDS, OBJECTS}; distinct = distinct (dataset, query, limit) paginations"
+	res.Rule = "SEQ over inputs: 7 small datasets (n = 0..6) + an 18-object dataset with repeated string values + a 300-object and a 6x6-grid dataset x 5 commands x areas {world bounds, circle, triangle} x filters {none, MATCH a*, MATCH a?, WHERE f 1 2, WHEREIN f 2 1 2, MATCH+WHERE, literal MATCH (ids and repeated string values), literal MATCH+WHERE, two MATCH patterns, MATCH r[e]d} x {ASC, DESC} x LIMIT 1..n+1 (large: 1, 7, 36, 100, 254..258, n, n+1) x {IDS, OBJECTS}; distinct = distinct (dataset, query, limit) paginations"
 	ids := []string{"a", "ab", "abc", "b", "ba", "c1"}
 	type dataset struct {
 		key    string
@@ -115,10 +115,24 @@ func checkC11(job *Job, res *Result) {
 		}
 		dsets = append(dsets, dataset{"grid", 36, gl})
 
+		// repeated string values (SEARCH applies MATCH to values) and literal patterns
+		for i, v := range []string{"red", "blue", "red", "red", "blue", "green", "red", "ab"} {
+			c.Do("SET", "dup", fmt.Sprintf("s%d", i), "FIELD", "f", fmt.Sprint(i%3+1), "STRING", v)
+			c.Do("SET", "dup", fmt.Sprintf("p%d", i), "FIELD", "f", fmt.Sprint(i%3+1), "POINT", fmt.Sprint(i), "1")
+		}
+		c.Do("SET", "dup", "ab", "FIELD", "f", "1", "POINT", "1", "1")
+		c.Do("SET", "dup", "red", "FIELD", "f", "1", "STRING", "ab")
+		var dl []int
+		for l := 1; l <= 19; l++ {
+			dl = append(dl, l)
+		}
+		dsets = append(dsets, dataset{"dup", 18, dl})
+
 		world := []string{"BOUNDS", "-90", "-180", "90", "180"}
 		circle := []string{"CIRCLE", "2.5", "2.5", "300000"}
 		tri := []string{"OBJECT", `{"type":"Polygon","coordinates":[[[-0.5,-0.5],[5.5,-0.5],[-0.5,5.5],[-0.5,-0.5]]]}`}
-		filters := [][]string{nil, {"MATCH", "a*"}, {"MATCH", "a?"}, {"WHERE", "f", "1", "2"}, {"WHEREIN", "f", "2", "1", "2"}, {"MATCH", "a*", "WHERE", "f", "1", "2"}}
+		filters := [][]string{nil, {"MATCH", "a*"}, {"MATCH", "a?"}, {"WHERE", "f", "1", "2"}, {"WHEREIN", "f", "2", "1", "2"}, {"MATCH", "a*", "WHERE", "f", "1", "2"},
+			{"MATCH", "red"}, {"MATCH", "ab"}, {"MATCH", "red", "WHERE", "f", "2", "3"}, {"MATCH", "red", "MATCH", "ab"}, {"MATCH", "r[e]d"}}
 		var queries []c11Query
 		for _, f := range filters {
 			for _, out := range []string{"IDS", "OBJECTS"} {
